@@ -95,7 +95,76 @@ func (c17) Plan(tier string) []fw.Unit {
 	if tier == "thorough" {
 		shards = 16
 	}
-	return planEnum("C17", tier, len(c17Preds()), shards)
+	us := planEnum("C17", tier, len(c17Preds()), shards)
+	return append(us, fw.Unit{Check: "C17", Kind: "typed", Tier: tier, Spec: fw.Spec(enumSpec{})})
+}
+
+// c17Typed: the aggregated column as every Go numeric type (one group, all sequences of length 3 over 12 typed
+// values and NULL) for four predicates: firing must not depend on the Go type of a number.
+func c17Typed() fw.Result {
+	a := newAcc("C17", "det-global-typed")
+	preds := []c17Pred{c17Cmp("sum(v)", ">=", 4), c17Cmp("max(v)", ">=", 3), c17Cmp("min(v)", "<", 2), c17Cmp("avg(v)", ">", 1.5)}
+	for _, p := range preds {
+		sql := "SELECT k, count(*) AS c, sum(v) AS s, avg(v) AS a FROM stream GROUP BY k, GLOBAL WINDOW TRIGGER WHEN " + p.SQL
+		sequences(3, len(c03Typed), func(ix []int) {
+			var rows []Row
+			var cur []ref.Val
+			var want, names []string
+			for i, x := range ix {
+				row := Row{"k": "a", "id": i + 1}
+				c03Typed[x].Set(row, "v")
+				rows = append(rows, row)
+				names = append(names, c03Typed[x].Name)
+				cur = append(cur, c03Typed[x].Ref)
+				if p.Eval(cur) {
+					f := c17Fire{K: "a", C: float64(len(cur))}
+					if xs := ref.Usable(cur); len(xs) > 0 {
+						sm, m := ref.Sum(xs), ref.Mean(xs)
+						f.S, f.A = &sm, &m
+					}
+					want = append(want, f.String())
+					cur = nil
+				}
+			}
+			r := detExec(sql, detOpts{Eager: true, Horizon: 100 * vtime.Millisecond}, func(e *Env) {
+				for _, row := range rows {
+					e.Emit(row)
+				}
+			})
+			a.r.Evaluations++
+			a.r.States++
+			a.r.Transitions += int64(r.Steps)
+			cs := map[string]any{"sql": sql, "values": names}
+			if r.ExecErr != "" || r.Status != sched.StatusOK {
+				a.fail("C17|exec", r.ExecErr+" "+r.Status.String()+" "+firstLine(r.Panic), cs, nil, nil)
+				return
+			}
+			var got []string
+			for _, b := range r.Batches {
+				for _, row := range b {
+					f := c17Fire{}
+					f.K, _ = row["k"].(string)
+					f.C, _ = num(row["c"])
+					if x, ok := num(row["s"]); ok {
+						f.S = &x
+					}
+					if x, ok := num(row["a"]); ok {
+						f.A = &x
+					}
+					got = append(got, f.String())
+				}
+			}
+			if len(want) > 0 {
+				a.r.Nontrivial++
+			}
+			a.outcome(strings.Join(got, ";"))
+			if strings.Join(got, ";") != strings.Join(want, ";") {
+				a.fail(fmt.Sprintf("C17|typed|pred=%s", p.SQL), fmt.Sprintf("%s over v=%v: fired %v, reference %v", sql, names, got, want), cs, want, got)
+			}
+		})
+	}
+	a.sample(map[string]any{"types": "int, int8..int64, uint..uint64, float32, float64, NULL", "len": 3})
+	return a.result()
 }
 
 type c17Fire struct {
@@ -115,6 +184,9 @@ func (f c17Fire) String() string {
 }
 
 func (c17) Run(u fw.Unit) fw.Result {
+	if u.Kind == "typed" {
+		return c17Typed()
+	}
 	sp := parseEnum(u)
 	p := c17Preds()[sp.Cfg]
 	a := newAcc("C17", "det-global")
